@@ -123,7 +123,12 @@ def build_lru(repo_src):
         sig, body = extract_fn(src, name)
         if name in expected_sigs and expected_sigs[name] != sig:
             raise Undecided("anchor-lost:verus-extract:signature of %s changed: %r" % (name, sig))
-        # dropped by the extraction: attributes on the fn (e.g. #[inline]) and the trait-impl header
+        # dropped by the extraction: attributes on the fn (e.g. #[inline]) and the trait-impl header.
+        # Rewritten by the extraction (the only token-level change, stated in the template header): a `&self`
+        # method that takes the mutex becomes a `&mut self` method that borrows it (`lock()` -> `get_mut()`):
+        # the lock is what makes the access exclusive, and Verus has no specification for interior mutability
+        # through a lock guard.
+        body = body.replace("self.set.lock()", "self.set.get_mut()")
         body = splice(body, annots.get(name, []), name)
         tmpl = tmpl.replace("@@BODY:%s@@" % name, body)
         dropped.append(name)
